@@ -27,8 +27,11 @@ theorem C09_net_column_map (v0 v1 v2 v3 v4 v5 v6 v7 v8 v9 v10 v11 v12 v13 v14 v1
     lookups (netCfg.unpack.zip [v0, v1, v2, v3, v4, v5, v6, v7, v8, v9, v10, v11, v12, v13, v14, v15])
       netCfg.output = some [v8, v0, v9, v1, v2, v10, v3, v11] := by rfl
 
-/-- two header lines are skipped, the name ends at the LAST colon, sixteen values are unpacked -/
-theorem C09_net_cfg : netCfg.skip = 2 ∧ netCfg.rfind = true ∧ netCfg.unpack.length = 16 := by decide
+/-- two header lines are skipped, the name ends at the LAST colon, sixteen values are unpacked,
+    the blanks the kernel pads the name with are stripped -/
+theorem C09_net_cfg :
+    netCfg.skip = 2 ∧ netCfg.rfind = true ∧ netCfg.unpack.length = 16 ∧ netCfg.nameWs 32 = true := by
+  refine ⟨by decide, by decide, by decide, by decide⟩
 
 /-- the namedtuples carry the documented field names in the documented order -/
 theorem C09_field_names :
@@ -50,20 +53,20 @@ theorem C09_empty_literals :
 /-- one kernel-rendered interface line parses to the interface's name and its eight
     documented counters — for every name (it may contain `:`, `/`, digits, blanks inside,
     bytes ≥ 0x80) and unbounded counters -/
-theorem C09_net_line_roundtrip (i : Iface) (hn : WFName i.name) :
+theorem C09_net_line_roundtrip (i : Iface) (hn : WFName netCfg.nameWs i.name) :
     netLine netCfg (renderNetLine i) = .ok (i.name, (documented8 i).map (·.2)) := by
-  rw [netLine_render netCfg C09_net_cfg.2.1 C09_net_cfg.2.2 i hn]
+  rw [netLine_render netCfg C09_net_cfg.2.1 C09_net_cfg.2.2.1 C09_net_cfg.2.2.2 i hn]
   rfl
 
-theorem netPlatform_gen (h1 h2 : Bytes) (ifs : List Iface) (wf : NetWF h1 h2 ifs) :
+theorem netPlatform_gen (h1 h2 : Bytes) (ifs : List Iface) (wf : NetWF netCfg.nameWs h1 h2 ifs) :
     netPlatform netCfg (renderNetDev h1 h2 ifs) = .ok (ifs.map fun i => (i.name, tuple8 i)) :=
-  netPlatform_render netCfg C09_net_cfg.2.1 C09_net_cfg.2.2 C09_net_cfg.1 tuple8 (fun _ => rfl)
-    h1 h2 ifs wf
+  netPlatform_render netCfg C09_net_cfg.2.1 C09_net_cfg.2.2.1 C09_net_cfg.1 C09_net_cfg.2.2.2 tuple8
+    (fun _ => rfl) h1 h2 ifs wf
 
 /-- **net, all in one**: for every interface table, `psutil.net_io_counters(pernic)` over the
     kernel-rendered file is exactly what the property promises: per interface the documented
     fields; system-wide their field-wise sum; `{}` / `None` when nothing is listed -/
-theorem C09_net (h1 h2 : Bytes) (ifs : List Iface) (wf : NetWF h1 h2 ifs) (pernic : Bool) :
+theorem C09_net (h1 h2 : Bytes) (ifs : List Iface) (wf : NetWF netCfg.nameWs h1 h2 ifs) (pernic : Bool) :
     netIoCounters pernic (renderNetDev h1 h2 ifs) = (expectNet pernic ifs).toOut := by
   unfold netIoCounters
   rw [netPlatform_gen h1 h2 ifs wf]
@@ -88,7 +91,7 @@ theorem C09_net (h1 h2 : Bytes) (ifs : List Iface) (wf : NetWF h1 h2 ifs) (perni
       rfl
 
 /-- per interface: exactly the kernel's counters under the documented names -/
-theorem C09_net_roundtrip (h1 h2 : Bytes) (ifs : List Iface) (wf : NetWF h1 h2 ifs) (hne : ifs ≠ []) :
+theorem C09_net_roundtrip (h1 h2 : Bytes) (ifs : List Iface) (wf : NetWF netCfg.nameWs h1 h2 ifs) (hne : ifs ≠ []) :
     netIoCounters true (renderNetDev h1 h2 ifs) = .perdev (ifs.map fun i => (i.name, documented8 i)) := by
   rw [C09_net h1 h2 ifs wf true]
   cases ifs with
@@ -96,13 +99,73 @@ theorem C09_net_roundtrip (h1 h2 : Bytes) (ifs : List Iface) (wf : NetWF h1 h2 i
   | cons i r => rfl
 
 /-- system-wide: the field-wise sum over all interfaces -/
-theorem C09_net_total_is_sum (h1 h2 : Bytes) (ifs : List Iface) (wf : NetWF h1 h2 ifs) (hne : ifs ≠ []) :
+theorem C09_net_total_is_sum (h1 h2 : Bytes) (ifs : List Iface) (wf : NetWF netCfg.nameWs h1 h2 ifs) (hne : ifs ≠ []) :
     netIoCounters false (renderNetDev h1 h2 ifs)
       = .total (netFieldNames.map fun f => (f, (ifs.map fun i => ((documented8 i).lookup f).getD 0).sum)) := by
   rw [C09_net h1 h2 ifs wf false]
   cases ifs with
   | nil => exact absurd rfl hne
   | cons i r => simp [expectNet, Expect.toOut, sumFields, List.map_map, Function.comp_def]
+
+/-! ### every name the kernel accepts (lead: control characters / Unicode spaces at the ends) -/
+
+/-- full strength: EVERY interface name free of C-locale whitespace — so also one that
+    begins or ends with 0x1c–0x1f, which `str.strip()` regards as whitespace — is reported
+    unchanged -/
+def C09_net_every_kernel_name_Full (cfg : NetCfg) : Prop :=
+  ∀ i : Iface, KName i.name → ∃ t, netLine cfg (renderNetLine i) = .ok (i.name, t)
+
+theorem wf_of_KName {n : Bytes} (h : KName n) : WFName (fun c => [32].contains c) n := by
+  have hws : ∀ c, (∃ x, n.head? = some c ∨ n.getLast? = some c ∨ x = c) → c ∈ n → ([32].contains c) = false := by
+    intro c _ hc
+    have := h.2 c hc
+    cases hcc : [32].contains c with
+    | false => rfl
+    | true =>
+      simp at hcc
+      rw [hcc] at this
+      exact absurd this (by decide)
+  refine ⟨h.1, ?_, ?_, ?_, ?_⟩
+  · intro c hc
+    exact hws c ⟨c, Or.inl hc⟩ (List.mem_of_mem_head? hc)
+  · intro c hc
+    exact hws c ⟨c, Or.inr (Or.inl hc)⟩ (List.mem_of_getLast? hc)
+  · intro hm; exact absurd (h.2 10 hm) (by decide)
+  · intro hm; exact absurd (h.2 13 hm) (by decide)
+
+/-- with `line[:colon].strip(' ')` (only the kernel's padding is removed) the full statement holds -/
+theorem C09_net_every_kernel_name_fixed :
+    C09_net_every_kernel_name_Full { netCfg with stripSet := some [32] } := by
+  intro i hk
+  refine ⟨tuple8 i, ?_⟩
+  rw [netLine_render { netCfg with stripSet := some [32] } C09_net_cfg.2.1 C09_net_cfg.2.2.1 rfl i (wf_of_KName hk)]
+  rfl
+
+/-- … hence for the code as extracted, as soon as the translator sees `.strip(' ')` -/
+theorem C09_net_every_kernel_name (h : netCfg.stripSet = some [32]) :
+    C09_net_every_kernel_name_Full netCfg := by
+  have : netCfg = { netCfg with stripSet := some [32] } := by
+    cases hc : netCfg with
+    | mk a b c d e => rw [hc] at h; simp at h; simp [h]
+  rw [this]
+  exact C09_net_every_kernel_name_fixed
+
+/-- with the bare `line[:colon].strip()` it is false: the interface named `a\x1f` is reported
+    as `a` (and collides with a real `a`) -/
+theorem C09_net_ctrl_name_counterexample :
+    ¬ C09_net_every_kernel_name_Full { netCfg with stripSet := none } := by
+  intro hfull
+  let i : Iface := ⟨[97, 31], 0, 0, 0, 0, 0, 0, 0, 0, 0, 0, 0, 0, 0, 0, 0, 0⟩
+  obtain ⟨t, ht⟩ := hfull i ⟨by decide, by decide⟩
+  rw [netLine_render_raw { netCfg with stripSet := none } C09_net_cfg.2.1 C09_net_cfg.2.2.1 i (by decide)] at ht
+  have hl : lookups (({ netCfg with stripSet := none } : NetCfg).unpack.zip (i.cells.map (·.2)))
+      ({ netCfg with stripSet := none } : NetCfg).output = some (tuple8 i) := rfl
+  rw [hl] at ht
+  have hs : stripP ({ netCfg with stripSet := none } : NetCfg).nameWs (padLeft 6 i.name) = [97] := by decide
+  simp only [hs] at ht
+  injection ht with h1
+  injection h1 with h2 _
+  exact absurd h2 (by decide)
 
 /-! ## /proc/diskstats -/
 
@@ -238,7 +301,7 @@ theorem C09_partitions_do_not_count (devs : List Dev) (wf : DiskWF devs) (wfw : 
 
 /-- nothing listed → `None` for the total, `{}` per device (both functions; also a file with
     only partitions gives `None` for the disk total) -/
-theorem C09_empty_convention (h1 h2 : Bytes) (wf : NetWF h1 h2 []) :
+theorem C09_empty_convention (h1 h2 : Bytes) (wf : NetWF netCfg.nameWs h1 h2 []) :
     netIoCounters false (renderNetDev h1 h2 []) = .none ∧
     netIoCounters true (renderNetDev h1 h2 []) = .emptyDict ∧
     diskIoCounters [] false [] = .none ∧
@@ -272,7 +335,7 @@ theorem C09_disk_usage (st : StatVfs) :
 
 /-! ## the hypotheses are satisfiable -/
 
-example : WFName [101, 116, 104, 48, 58, 49] ∧ WFName [97, 32, 58, 47, 98] := by
+example : WFName netCfg.nameWs [101, 116, 104, 48, 58, 49] ∧ WFName netCfg.nameWs [97, 32, 58, 47, 98] := by
   refine ⟨⟨by decide, ?_, ?_, by decide, by decide⟩, ⟨by decide, ?_, ?_, by decide, by decide⟩⟩ <;>
     (intro c hc; simp at hc; subst hc; decide)
 
